@@ -31,6 +31,7 @@ class VLoop(asyncio.AbstractEventLoop):
         self.horizon = horizon
         self.step_hook = step_hook
         self._all_tasks: list = []
+        self.executor_delay = None      # None: result on the next iteration; else a (possibly symbolic) duration per call
 
     # ---- clock
     def time(self):
@@ -105,19 +106,25 @@ class VLoop(asyncio.AbstractEventLoop):
 
     def run_in_executor(self, executor, func, *args):
         # threads are outside the environment model; the one thing modelled is that the caller is suspended for (at least) one
-        # loop iteration: the function runs here and now, its result is delivered on the next iteration
+        # loop iteration: the function runs here and now, its result is delivered on the next iteration, or after
+        # `executor_delay` (an arbitrary non-negative duration chosen by the template, usually symbolic: work in a thread takes time)
         fut = self.create_future()
 
         def _deliver(ok, val):
             if fut.cancelled():
                 return
             (fut.set_result if ok else fut.set_exception)(val)
+        def _sched(ok, val):
+            if self.executor_delay is None:
+                self.call_soon(_deliver, ok, val)
+            else:
+                self.call_later(self.executor_delay, _deliver, ok, val)
         try:
             res = func(*args)
         except BaseException as ex:  # noqa
-            self.call_soon(_deliver, False, ex)
+            _sched(False, ex)
         else:
-            self.call_soon(_deliver, True, res)
+            _sched(True, res)
         return fut
 
     # ---- one iteration
